@@ -10,9 +10,10 @@ import time
 import typing
 from types import SimpleNamespace
 
-from .. import e2e
+from .. import cpuwatch, e2e, realcall
 from ..common import Hang, hx, unhx, watchdog
 from ..runner import Check
+from . import c11_dups, c11_repoint
 
 # ---------------------------------------------------------------------------------------------
 # graphs
@@ -143,7 +144,71 @@ def random_graph(rng, max_nodes=7):
 
 
 # ---------------------------------------------------------------------------------------------
-# stubs for the real functions
+# calls into real internals. Every direct call of a private / name-mangled function of /repo goes through
+# vlib/realcall: when the callee is gone or no longer binds the arguments the model was written against, that is
+# a broken CORRESPONDENCE of the campaign that is running (DESIGN.md 2.4: failing-input search), not a crash.
+BROKEN = ("broken-call",)  # what a real_* wrapper returns when its callee is gone / has another shape
+_at: dict = {"ck": None, "camp": None}
+
+
+def at(ck: Check, camp) -> None:
+    """the campaign on whose account the following real calls are made"""
+    _at["ck"], _at["camp"] = ck, camp
+
+
+def _ctx():
+    ck, camp = _at["ck"], _at["camp"]
+    if camp is None or camp not in ck.campaigns:
+        camp = ck.campaigns[-1] if ck.campaigns else ck.campaign("real calls outside a campaign")
+    return ck, camp
+
+
+_shape_cache: dict = {}
+
+
+def _shape(fn, key, *args, **kwargs):
+    """realcall.signature_accepts, decided once per callee and argument shape (it is asked a million times)"""
+    k = (id(fn), key)
+    if k not in _shape_cache:
+        _shape_cache[k] = "callee is gone" if fn is None else realcall.signature_accepts(fn, *args, **kwargs)
+    return _shape_cache[k]
+
+
+class _CampaignOf:
+    """stands for 'the campaign that `fn` opened' in realcall.guard, which wants it before it exists"""
+
+    def __init__(self, ck: Check, first: int, fallback: str):
+        self._ck, self._first, self._fallback = ck, first, fallback
+
+    def _camp(self):
+        if len(self._ck.campaigns) <= self._first:
+            self._ck.campaign(self._fallback)
+        return self._ck.campaigns[-1]
+
+    @property
+    def name(self):
+        return self._camp().name
+
+    @property
+    def disagreements(self):
+        return self._camp().disagreements
+
+    @disagreements.setter
+    def disagreements(self, v):
+        self._camp().disagreements = v
+
+
+def guarded(ck: Check, fn, *args) -> None:
+    """run one campaign; a shape error of a real internal (attribute gone, other signature, module moved) that
+    surfaces in harness code ends THIS campaign as a broken correspondence"""
+    proxy = _CampaignOf(ck, len(ck.campaigns), f"{fn.__name__}: could not start")
+    try:
+        with realcall.guard(ck, proxy, f"harness of {fn.__name__}"):
+            fn(ck, *args)
+    except ImportError as e:
+        ck.disagree(proxy._camp(), {"real_call": f"imports of {fn.__name__}"}, "the modelled classes/functions are importable", f"ImportError: {e}")
+
+
 _real_cache: dict = {}
 
 
@@ -224,17 +289,72 @@ def stub_models(g):
     return out
 
 
+_sort_cal: dict = {}
+_confirmed_hangs = {"n": 0}
+
+
+def sort_budget(fn, n: int) -> float:
+    """CPU seconds granted to the real sort_data_models on n models: 3 up to 100 models (they need well under a
+    millisecond), at least 10 beyond; above 200 models 8 x the time
+    of the worst-case family (a member chain given referrer first: one model per pass, every pass rebuilds
+    `set(sorted_data_models)` per model) measured now on 200 models, scaled with n**3."""
+    if n <= 100:
+        return 3.0
+    if id(fn) not in _sort_cal:
+        def reference(n0: int) -> None:
+            g = [node(i, (), (i + 1,) if i + 1 < n0 else ()) for i in range(n0)]
+            try:
+                with cpuwatch.cpu_watchdog(60):
+                    fn(stub_models(g))
+            except Hang:
+                raise
+            except Exception:  # noqa: BLE001  (a changed callee: the default unit below is used)
+                pass
+
+        cal = cpuwatch.Calibration(reference, n0=200, degree=3.0, margin=8.0, floor=10.0)
+        try:
+            cal.unit = max(cal.measure(), 0.05)  # never below what an unloaded run here needs (0.08 s)
+        except (Hang, cpuwatch.Stalled):
+            cal.unit = 0.25
+        _sort_cal[id(fn)] = cal
+    return _sort_cal[id(fn)].budget(n)
+
+
 def run_real_sort(models, rc=None, extra=None):
     """canonical observable result of the real sort_data_models (`extra`: frames left on the stack)"""
     R = _real()
+    ck, camp = _ctx()
+    fn = realcall.resolve(ck, camp, R.pbase, "sort_data_models", "parser.base.sort_data_models")
+    kw = {} if rc is None else {"recursion_count": rc}
+    if _shape(fn, rc is None, models, **kw) is not None:
+        realcall.call(ck, camp, "parser.base.sort_data_models", fn, models, **kw)  # does not bind: records it (once per campaign)
+        return BROKEN
+    if _confirmed_hangs["n"] >= 3:  # the verdict of this run is decided; do not spend the budget on every further case
+        camp.hit("skipped after 3 confirmed hangs of sort_data_models")
+        camp.unmodelled += 1
+        return BROKEN
+
+    def once():
+        with stack_room(extra):
+            return fn(models) if rc is None else fn(models, recursion_count=rc)
+
     try:
-        with watchdog(30 if extra is not None else 10), stack_room(extra):
-            if rc is None:
-                un, so, upd = R.pbase.sort_data_models(models)
-            else:
-                un, so, upd = R.pbase.sort_data_models(models, recursion_count=rc)
+        # "does not terminate" is a statement about the WORK done, not about the wall clock of a loaded machine:
+        # CPU budget scaled to the size (worst case cubic, calibrated in this process), one confirming re-run with
+        # four times the budget before the verdict. The input list and the models are not mutated by the callee.
+        budget = sort_budget(fn, len(models))
+        if _confirmed_hangs["n"]:  # a confirmed hang already decides this run: further expiries are not re-run
+            with cpuwatch.cpu_watchdog(budget):
+                un, so, upd = once()
+        else:
+            un, so, upd = cpuwatch.run_bounded(once, budget, 4.0, lambda b: camp.hit("CPU budget expired once: re-run with 4x"))
     except Hang:
+        _confirmed_hangs["n"] += 1
         return ("hang",)
+    except cpuwatch.Stalled:
+        camp.hit("stalled: wall cap expired before the CPU budget was used up (machine starved) — case skipped")
+        camp.unmodelled += 1
+        return BROKEN
     except RecursionError:
         return ("recursion-error",)
     except Exception as e:  # noqa: BLE001
@@ -268,7 +388,8 @@ def parse_sort_reply(rep: str):
 
 
 def default_rc() -> int:
-    return _real().pbase.MAX_RECURSION_COUNT
+    v = realcall.resolve(*_ctx(), _real().pbase, "MAX_RECURSION_COUNT", "parser.base.MAX_RECURSION_COUNT")
+    return sys.getrecursionlimit() if v is None else v
 
 
 # ---------------------------------------------------------------------------------------------
@@ -310,6 +431,7 @@ def closed_refs(g) -> bool:
 
 def campaign_sort(ck: Check, n_random: int, exhaustive_nodes: int) -> None:
     camp = ck.campaign("Model.Sort.sortDataModels vs sort_data_models (real DataModel objects / stand-ins)")
+    at(ck, camp)
     t0 = time.time()
     rng = ck.rng.fork("sort")
     cases = []  # (graph, rc or None, kind)
@@ -343,6 +465,8 @@ def campaign_sort(ck: Check, n_random: int, exhaustive_nodes: int) -> None:
                 if {id_of(p) for p in m.reference_classes} != set(refs_of(n)):
                     ck.infra_errors.append(f"stub construction: reference_classes {m.reference_classes} for node {n}")
         impl = run_real_sort(ms, rc)
+        if impl is BROKEN:
+            return
         impl_c = tuple(impl)
         model_c = tuple(model)
         camp.hit(f"n={len(g)}")
@@ -445,6 +569,8 @@ def stack_case(ck: Check, camp, g, rc, extra, kind, model_replies=None) -> None:
     camp.evaluations += 1
     ms = real_models(g) if kind == "real" else stub_models(g)
     impl = run_real_sort(ms, rc, extra)
+    if impl is BROKEN:
+        return
     camp.hit(f"n={len(g) // 10 * 10}..")
     camp.hit("objects:" + kind)
     camp.hit("result:" + (impl[0] if impl[0] != "err" else "err-" + str(impl[1])))
@@ -474,6 +600,7 @@ STACK_WINDOW = (-4, 4)  # candidates for d relative to the frames left (the call
 
 def campaign_stack(ck: Check, n_cases: int, at_default_limit: bool) -> None:
     camp = ck.campaign("Model.Sort.sortDataModelsS (escape hatch) vs sort_data_models on a nearly exhausted interpreter stack: deep chains / DAGs / trees")
+    at(ck, camp)
     t0 = time.time()
     rng = ck.rng.fork("stack")
     # the budget the code starts with is the interpreter's limit at import time; the theorems need nothing else about it
@@ -535,6 +662,7 @@ CORPUS = [
 # bubble convergence: all inheritance graphs on <= N nodes
 def campaign_bubble(ck: Check, max_nodes: int) -> None:
     camp = ck.campaign("bubble_converges, exhaustively: every inheritance digraph on <= %d nodes (model passes; real error kind)" % max_nodes)
+    at(ck, camp)
     t0 = time.time()
     maxpass: dict[int, int] = {}
 
@@ -577,6 +705,8 @@ def campaign_bubble(ck: Check, max_nodes: int) -> None:
             # the real code: the new `else: raise` is taken exactly when the model's bubble runs out
             impl = run_real_sort(stub_models(g))
             want = ("err", "unresolved") if converged else ("err", "circularBases")
+            if impl is BROKEN:
+                continue
             if impl != want:
                 if impl[0] == "hang":
                     ck.fail({"oracle": "sorter_result", "mechanism": "hang", "base_cycle": cyc, "self_base": False}, {"graph": g, "target": "sort_data_models"}, "sort_data_models does not terminate")
@@ -612,19 +742,34 @@ NAMES = ["A", "B", "C", "D", "E", "Ab", "a", "Z", "B1"]
 
 
 def run_real_sort_models(imp, ms, fuel):
-    """class names in the order the real pass leaves them, or "none" when it is still sweeping after `fuel` sweeps"""
-    fn = _real().pbase.Parser._Parser__sort_models
+    """class names in the order the real pass leaves them, or "none" when it is still sweeping after `fuel` sweeps;
+    BROKEN when the pass is gone, takes other arguments, or reads of a model more than the stand-ins expose
+    (class_name, base_classes[i].reference / .type_hint) — the shape the model was transliterated from"""
+    ck, camp = _ctx()
+    fn = realcall.resolve(ck, camp, _real().pbase.Parser, "_Parser__sort_models", "Parser.__sort_models")
     stubs = CountingList([Stub("", frozenset(), [_Base(None, "BaseModel")] + [_Base(_Ref(""), b) for b in bs], nm) for nm, bs in ms], fuel)
+    self_, imports = SimpleNamespace(keep_model_order=True), {"m": set(imp)}
+    if _shape(fn, "sort_models", self_, stubs, imports) is not None:
+        realcall.call(ck, camp, "Parser.__sort_models(self, models, imports)", fn, self_, stubs, imports, _case={"imported": imp, "models": ms})
+        return BROKEN
+    done = False
     try:
-        with watchdog(10):
-            fn(SimpleNamespace(keep_model_order=True), stubs, {"m": set(imp)})
-        return [s.class_name for s in list.__iter__(stubs)]
+        with cpuwatch.cpu_watchdog(20), realcall.guard(ck, camp, "Parser.__sort_models on stand-in models (reads class_name, base_classes[i].reference/.type_hint)",
+                                          {"imported": imp, "models": ms}):
+            fn(self_, stubs, imports)
+            done = True
     except Hang:
         return "none"
+    except cpuwatch.Stalled:
+        camp.hit("stalled: wall cap expired before the CPU budget was used up (machine starved) — case skipped")
+        camp.unmodelled += 1
+        return BROKEN
+    return [s.class_name for s in list.__iter__(stubs)] if done else BROKEN
 
 
 def campaign_sort_models(ck: Check, n_cases: int) -> None:
     camp = ck.campaign("Model.Sort.sortModels vs Parser._Parser__sort_models (keep_model_order)")
+    at(ck, camp)
     t0 = time.time()
     rng = ck.rng.fork("sortmodels")
     cases = []
@@ -653,6 +798,8 @@ def campaign_sort_models(ck: Check, n_cases: int) -> None:
         camp.evaluations += 1
         model = "none" if rep == "none" else [unhx(t) for t in rep[4:-1].split()] if rep.startswith("ok (") else rep
         impl = run_real_sort_models(imp, ms, fuel)
+        if impl is BROKEN:
+            continue
         camp.hit(f"n={len(ms)}")
         camp.hit("loops-forever(fuel)" if impl == "none" else "terminates")
         if len(ms) > 1:
@@ -704,6 +851,9 @@ def name_cycle(ms) -> bool:
 # end-to-end oracle: graph -> JSON-Schema definitions -> real generate() -> the emitted module
 E2E_KINDS = ["pydantic_v2.BaseModel", "pydantic.BaseModel", "dataclasses.dataclass"]
 WATCHDOG_S = 6  # one generate() call takes ~20 ms
+
+CONFIRM_WALL_S = int(cpuwatch.CONFIRM_WALL_S)  # second look at a run that expired under the wall-clock watchdog of e2e.run_generate
+settle_hang = cpuwatch.settle_hang
 
 
 def schema_doc(g, prefix=None) -> dict:
@@ -828,10 +978,15 @@ def e2e_case(ck: Check, camp, g, kind: str, opts: dict):
     cls = {"oracle": "e2e", "kind": kind, "base_cycle": cyc, "self_base": selfb, "keep_model_order": bool(opts.get("keep_model_order")),
            "reuse_model": bool(opts.get("reuse_model")), "collapse_root_models": bool(opts.get("collapse_root_models")),
            "low_stack": extra is not None}
-    with stack_room(extra):
-        res = e2e.run_generate(schema_doc(g), model=kind, opts=gen_opts, timeout=WATCHDOG_S if len(g) < 40 else 60)
+    def gen(timeout):
+        with stack_room(extra):
+            return e2e.run_generate(schema_doc(g), model=kind, opts=gen_opts, timeout=timeout)
+
+    res = settle_hang(camp, gen(WATCHDOG_S if len(g) < 40 else 60), gen)
+    if res is None:
+        return None
     if res.hang:
-        ck.fail({**cls, "mechanism": "hang"}, inp, f"generate() does not terminate ({WATCHDOG_S} s watchdog)")
+        ck.fail({**cls, "mechanism": "hang"}, inp, f"generate() does not terminate ({WATCHDOG_S} s watchdog, confirmed with {CONFIRM_WALL_S} s)")
         return None
     if not res.ok and res.error_type == "RecursionError" and extra is not None:
         # control: the same models given referent-first need one worklist pass. If that fails too the stack is
@@ -954,6 +1109,7 @@ def _use_module(ck, camp, g, kind, opts, inp, cls, res, names, pos, by_id, foote
 
 def campaign_e2e(ck: Check, n_graphs: int) -> None:
     camp = ck.campaign("e2e: graph -> definitions (allOf/$ref) -> real generate() -> class order, import, forward refs usable")
+    at(ck, camp)
     t0 = time.time()
     rng = ck.rng.fork("e2e")
     for g in E2E_CORPUS:
@@ -1060,7 +1216,8 @@ def campaign_reuse(ck: Check, n_cases: int) -> None:
     camp = ck.campaign("Model.Sort.reusePass / emitFooter vs Parser._Parser__reuse_model on real DataModel objects (paths, bases, update-action list)")
     t0 = time.time()
     rng = ck.rng.fork("reuse")
-    fn = _real().pbase.Parser._Parser__reuse_model
+    at(ck, camp)
+    fn = realcall.resolve(ck, camp, _real().pbase.Parser, "_Parser__reuse_model", "Parser.__reuse_model")
     cases = [g for g, _ in POST_CORPUS if not any(n.get("root") for n in g)]
     for _ in range(n_cases):
         cases.append(clean(random_graph(rng, 5)) if rng.chance(1, 6) else post_graph(rng, False))
@@ -1077,9 +1234,15 @@ def campaign_reuse(ck: Check, n_cases: int) -> None:
         ms = real_models_marked(g)
         upd = [path_of(i) for i in flagged]
         try:
-            fn(SimpleNamespace(reuse_model=True), ms, upd)
+            ok, _ = realcall.call(ck, camp, "Parser.__reuse_model(self, models, require_update_action_models)", fn,
+                                  SimpleNamespace(reuse_model=True), ms, upd, _case={"graph": g, "flagged": flagged})
         except Exception as ex:  # noqa: BLE001
-            ck.disagree(camp, {"graph": g, "flagged": flagged}, rep, f"raised {type(ex).__name__}: {ex}")
+            if len(ck.disagreements) < 60:
+                ck.disagree(camp, {"graph": g, "flagged": flagged}, rep, f"raised {type(ex).__name__}: {ex}")
+            else:
+                camp.disagreements += 1
+            continue
+        if not ok:
             continue
 
         def show(path):
@@ -1105,6 +1268,7 @@ def campaign_reuse(ck: Check, n_cases: int) -> None:
 def campaign_e2e_post(ck: Check, n_graphs: int) -> None:
     camp = ck.campaign("e2e with post-passes (--reuse-model, --collapse-root-models, --keep-model-order): identical definitions inside cycles, "
                        "root models; classes, import, every model usable; footer vs Model.Sort.emitFooter")
+    at(ck, camp)
     t0 = time.time()
     rng = ck.rng.fork("e2e-post")
     obs = []
@@ -1135,6 +1299,7 @@ POST_CORPUS = [
 
 def campaign_e2e_deep(ck: Check, n_cases: int) -> None:
     camp = ck.campaign("e2e on a nearly exhausted interpreter stack: deep chains / DAGs / trees -> generate() ends with every class, module usable")
+    at(ck, camp)
     t0 = time.time()
     rng = ck.rng.fork("e2e-deep")
     for k in range(n_cases):
@@ -1149,6 +1314,7 @@ def campaign_e2e_deep(ck: Check, n_cases: int) -> None:
 def campaign_e2e_keep_order(ck: Check, n_cases: int) -> None:
     """--keep-model-order: inheritance forests whose class names sort in every relation to the inheritance direction"""
     camp = ck.campaign("e2e --keep-model-order: inheritance chains/forests x every assignment of names (reverse-alphabetical chains included)")
+    at(ck, camp)
     t0 = time.time()
     rng = ck.rng.fork("e2e-keep")
     cases = []
@@ -1177,6 +1343,7 @@ def campaign_e2e_keep_order(ck: Check, n_cases: int) -> None:
 def campaign_e2e_modular(ck: Check, n_graphs: int) -> None:
     """keep_model_order + modules: the per-module swap loop of __sort_models must terminate"""
     camp = ck.campaign("e2e modular + keep_model_order: terminates, every definition is one class in its module, bases first inside a module")
+    at(ck, camp)
     t0 = time.time()
     rng = ck.rng.fork("e2e-mod")
     todo = [([dict(n) for n in g], dict(p)) for g, p in MODULAR_CORPUS]
@@ -1193,10 +1360,13 @@ def campaign_e2e_modular(ck: Check, n_graphs: int) -> None:
         inp = {"graph": g, "prefix": prefix, "target": "e2e-modular"}
         cls = {"oracle": "e2e-modular", "base_cycle": False, "self_base": False}
         res = e2e.run_generate(schema_doc(g, prefix), opts={"keep_model_order": True}, modular=True, timeout=WATCHDOG_S)
+        res = settle_hang(camp, res, lambda t, g=g, prefix=prefix: e2e.run_generate(schema_doc(g, prefix), opts={"keep_model_order": True}, modular=True, timeout=t))
         camp.hit(f"modules={len(set(prefix.values()))}")
+        if res is None:
+            continue
         if res.hang:
             # where: does it also hang without the alphabetical re-sort?
-            again = e2e.run_generate(schema_doc(g, prefix), opts={}, modular=True, timeout=WATCHDOG_S)
+            again = e2e.run_generate(schema_doc(g, prefix), opts={}, modular=True, timeout=CONFIRM_WALL_S)
             where = "keep_model_order" if not again.hang else "generate"
             ck.fail({**cls, "mechanism": "hang", "where": where}, inp,
                     f"generate(keep_model_order=True) does not terminate ({WATCHDOG_S} s watchdog); without the option: {'hangs too' if again.hang else 'terminates'}")
@@ -1247,6 +1417,7 @@ MODULAR_CORPUS = [
 def search_e2e(ck: Check) -> None:
     """a theorem or the correspondence broke: look for an input on which the property's oracle fails"""
     camp = ck.campaign("search: disagreeing graphs and all small graphs end-to-end")
+    at(ck, camp)
     seen = set()
     # disagreements of the alphabetical pass, embedded into a complete document (class names that sort alike)
     for d in ck.disagreements[:200]:
@@ -1298,7 +1469,8 @@ def search_e2e(ck: Check) -> None:
             for (i, j), kd in zip(pairs, kinds):
                 if kd:
                     g[i]["members" if kd == 1 else "bases"].append(j)
-            why = oracle_sort_result(g, run_real_sort(stub_models(g)))
+            res = run_real_sort(stub_models(g))
+            why = None if res is BROKEN else oracle_sort_result(g, res)
             if why:
                 ck.fail({"oracle": "sorter_result", "mechanism": mechanism_of(why), "self_base": False, "base_cycle": base_cycle(g)},
                         {"graph": g, "recursion_count": None, "objects": "stub", "target": "sort_data_models"}, why)
@@ -1312,8 +1484,11 @@ def run_modular_case(ck: Check, camp, g, prefix) -> None:
     inp = {"graph": g, "prefix": prefix, "target": "e2e-modular"}
     cls = {"oracle": "e2e-modular", "base_cycle": False, "self_base": False}
     res = e2e.run_generate(schema_doc(g, prefix), opts={"keep_model_order": True}, modular=True, timeout=WATCHDOG_S)
+    res = settle_hang(camp, res, lambda t: e2e.run_generate(schema_doc(g, prefix), opts={"keep_model_order": True}, modular=True, timeout=t))
+    if res is None:
+        return
     if res.hang:
-        again = e2e.run_generate(schema_doc(g, prefix), opts={}, modular=True, timeout=WATCHDOG_S)
+        again = e2e.run_generate(schema_doc(g, prefix), opts={}, modular=True, timeout=CONFIRM_WALL_S)
         ck.fail({**cls, "mechanism": "hang", "where": "keep_model_order" if not again.hang else "generate"}, inp, "generate(keep_model_order=True) does not terminate")
 
 
@@ -1323,6 +1498,11 @@ def known_findings(ck: Check) -> None:
         probe = Check(ck.prop, ck.tier)
         probe.findings = []
         camp = probe.campaign("witness")
+        if "doc" in w:
+            c11_dups.dups_case(probe, camp, w, w["kind"])
+            if probe.failures:
+                ck.known(f["id"], f["what"])
+            continue
         g = [dict(n) for n in w["graph"]]
         if "prefix" in w:
             run_modular_case(probe, camp, g, {int(k): v for k, v in w["prefix"].items()})
@@ -1343,16 +1523,20 @@ def run(ck: Check) -> None:
         "__reuse_model is modelled for object models (Enum and type-alias branches: end-to-end oracle only); equality of renderings is represented by a key computed from the written definition (mark, members, bases)",
         "the end-to-end oracle treats a base list that Python itself rejects (MRO conflict, duplicate base) as outside C11: no order of classes could repair it",
     ]
-    campaign_sort(ck, 500 if quick else 5000, 3 if quick else 4)
-    campaign_stack(ck, 120 if quick else 600, not quick)
-    campaign_bubble(ck, 4 if quick else 5)
-    campaign_e2e_keep_order(ck, 60 if quick else 500)  # before the function-level campaign: a failing DOCUMENT becomes the replay
-    campaign_sort_models(ck, 600 if quick else 6000)
-    campaign_e2e(ck, 240 if quick else 2000)
-    campaign_reuse(ck, 200 if quick else 2000)
-    campaign_e2e_post(ck, 120 if quick else 900)
-    campaign_e2e_deep(ck, 10 if quick else 60)
-    campaign_e2e_modular(ck, 80 if quick else 400)
+    guarded(ck, campaign_sort, 500 if quick else 5000, 3 if quick else 4)
+    guarded(ck, campaign_stack, 120 if quick else 600, not quick)
+    guarded(ck, campaign_bubble, 4 if quick else 5)
+    guarded(ck, campaign_e2e_keep_order, 60 if quick else 500)  # before the function-level campaign: a failing DOCUMENT becomes the replay
+    guarded(ck, c11_dups.campaign_dups, 240 if quick else 2400)
+    guarded(ck, campaign_sort_models, 600 if quick else 6000)
+    guarded(ck, campaign_e2e, 240 if quick else 2000)
+    guarded(ck, campaign_reuse, 200 if quick else 2000)
+    guarded(ck, c11_repoint.campaign_replace_reference, 400 if quick else 4000)
+    guarded(ck, c11_repoint.campaign_passes, 150 if quick else 1500)
+    guarded(ck, campaign_e2e_post, 120 if quick else 900)
+    guarded(ck, campaign_e2e_deep, 10 if quick else 60)
+    guarded(ck, campaign_e2e_modular, 80 if quick else 400)
+    ck.search_hooks.append(c11_dups.search_dups)
     ck.search_hooks.append(search_e2e)
     known_findings(ck)
 
@@ -1361,14 +1545,15 @@ def replay(ck: Check, path: str) -> int:
     data = json.loads(open(path).read())
     inp = data.get("input") or {}
     camp = ck.campaign("replay")
+    at(ck, camp)
     ck.findings = []
     target = inp.get("target")
     if target == "sort_data_models":
         g = inp["graph"]
         ms = real_models(g) if inp.get("objects") == "real" else stub_models(g)
         res = run_real_sort(ms, inp.get("recursion_count"), inp.get("stack_extra"))
-        why = oracle_sort_result(g, res)
         print("sort_data_models ->", res)
+        why = None if res is BROKEN else oracle_sort_result(g, res)
         if res == ("err", "circularBases") and not base_cycle(g):
             why = "acyclic inheritance is reported as circular base classes"
         if why:
@@ -1377,13 +1562,17 @@ def replay(ck: Check, path: str) -> int:
         e2e_case(ck, camp, inp["graph"], inp["kind"], inp.get("opts", {}))
     elif target == "e2e-modular":
         run_modular_case(ck, camp, inp["graph"], {int(k): v for k, v in inp["prefix"].items()})
+    elif target == "e2e-dups":
+        c11_dups.replay_case(ck, camp, inp)
     elif target == "__sort_models":
         ms = [(nm, list(bs)) for nm, bs in inp["models"]]
         impl = run_real_sort_models(inp["imported"], ms, 60)
         print("__sort_models ->", impl)
+        if impl is BROKEN:
+            print("Parser.__sort_models no longer has the modelled shape: nothing to judge at function level")
         if impl == "none" and not name_cycle(ms):
             ck.fail({"oracle": "sort_models", "mechanism": "hang"}, inp, "__sort_models keeps swapping although inheritance among the classes of the module is acyclic")
-        why = sort_models_order_violation(inp["imported"], ms, impl)
+        why = None if impl is BROKEN else sort_models_order_violation(inp["imported"], ms, impl)
         if why:
             ck.fail({"oracle": "sort_models", "mechanism": "base_after_derived"}, inp, why)
     for f in ck.failures:
